@@ -22,4 +22,7 @@ PROPS = {
     "C19": P(19, "exploration",
              quick=dict(checks=3000, timeout=300),
              thorough=dict(checks=40000, shards=4, timeout=900)),
+    "C20": P(20, "exploration",
+             quick=dict(checks=300, timeout=600, shrinktime="5s"),
+             thorough=dict(checks=1500, shards=8, timeout=2400, shrinktime="10s")),
 }
